@@ -103,10 +103,12 @@ CHECKS = {
                 "concrete run returns the value of the simple run on the delivered stream (C01_dimacs_any_chunking, "
                 "C01_log_any_chunking, two-sources corollaries). The programs are tied to the code by running the extracted programs and "
                 "the real parsers on the same re-chunked inputs (items, error location, read calls). PARTIAL for AIGER/BTOR2: "
-                "one-shot-vs-rechunked oracle on the implementation.",
+                "one-shot-vs-rechunked oracle on the implementation, plus — all seven parsers now being programs of the model — "
+                "answer-insensitivity proved for the AIGER ascii/binary and BTOR2 parsers (PDet_parse_aag/aig/btor2, incl. the BTOR2 "
+                "keyword scanner's 8-byte fast path); their no-stuck/no-panic half is not yet a theorem.",
         "design_ref": "DESIGN.md 2/C01",
         "note": "Trusted: Coq kernel; extraction; hand transcription of text.rs/token.rs/cnf.rs/wcnf.rs/gcnf.rs/sat_solver_log.rs into "
-                "parser programs (validated differentially); Read contract; AIGER/BTOR2 parsers not modelled (oracle only).",
+                "parser programs, likewise aiger/{token,ascii,binary}.rs and btor2/{token,parser,btor2}.rs (validated differentially); Read contract.",
         "technique": "Coq proof (simulation by induction on programs over the reader invariant) + model/implementation correspondence + oracle",
     },
     "C14": {
@@ -210,8 +212,12 @@ CHECKS = {
         "text": "Coq theorems (Props/C03.v): for every integer and every type it fits, the text the writer produces is read back as "
                 "that integer with the offset just behind it by every admissible run of the scanner programs, whatever non-digit "
                 "follows; write_binary_uint/binary_uint round trip for every delta below 2^56; the BTOR2 writer's operator names are "
-                "the parser's keywords (table regenerated from the source on every run). PARTIAL: whole-document round trips "
-                "(parse.write.parse and constructor-built values) are checked on the implementation by the rt oracle for all formats.",
+                "the parser's keywords (table regenerated from the source on every run). BTOR2 whole documents: the parser program run on "
+                "the bytes the writer function produces returns exactly the lines and a clean end, for every list of lines in the format's "
+                "domain (all node kinds, symbols, comments; Btor2Rt.v), parser program and writer function being tied to the code by the "
+                "pa stream (every field of every line, the bytes write_into produces, the constants' validating constructors). PARTIAL: "
+                "whole-document round trips of the DIMACS family and AIGER (parse.write.parse, value->text->value) are checked on the "
+                "implementation by the rt and expectation oracles.",
         "design_ref": "DESIGN.md 2/C03",
         "note": "Trusted: as C11/C13; translator for the BTOR2 table. Defect D9 (DecimalConst) was found by this check and fixed.",
         "technique": "Coq proof (number-level round trips) + translator-generated table + round-trip oracle",
